@@ -229,9 +229,41 @@ func (g *Gen) MatrixScript(t int) []func() *Op {
 			return op
 		})
 	}
+	if tp.NewObs == nil {
+		// arities without a typed observer: generic observers watch what the typed mapper reports (which entities, how
+		// often, and - probed inside the callback - with which values), wildcard and restricted to the tuple's components
+		evs := []EvType{EvCreate, EvAdd, EvRemove, EvSet, EvRemoveEntity}
+		if hasRel {
+			evs = append(evs, EvAddRel, EvRemoveRel)
+		}
+		for _, ev := range evs {
+			ev := ev
+			for variant := 0; variant < 2; variant++ {
+				variant := variant
+				s = append(s, func() *Op {
+					op := mk(KRegObs)
+					op.Slot = len(g.M.Obs)
+					o := &ObsSpec{Ev: ev, Tuple: -1, UnregOther: -1, Probe: true}
+					if variant == 1 {
+						if ev == EvAddRel || ev == EvRemoveRel {
+							o.Comps = relsOf(set).List()
+						} else if ev == EvCreate || ev == EvRemoveEntity {
+							o.With = append([]int{}, cs[:1]...)
+						} else {
+							o.Comps = append([]int{}, cs[:1]...)
+						}
+					}
+					op.Obs = o
+					return op
+				})
+			}
+		}
+	}
 	for fn := 0; fn < 3; fn++ {
 		s = append(s, newEnt(fn), newBatch(fn))
 	}
+	// a second round of batches: the destination tables are populated now
+	s = append(s, newBatch(0), newBatch(1))
 	s = append(s, single(KSet, PTMap, 0, 0), single(KWrite, PTMap, 0, 0), single(KWrite, PTMap, 0, 1), single(KSetRel, PTMap, 0, 0))
 	s = append(s, single(KRemove, PTMap, 0, 0))
 	for fn := 0; fn < 3; fn++ {
